@@ -115,7 +115,9 @@ Definition py_int (t : str) : option Z :=
   end.
 
 (** * Python values that can sit in a batch block or a step's run block *)
-Inductive val := VInt (n : N) | VStr (t : str) | VBool (b : bool) | VNone.
+(** [VFloat n]: the integral float [float(n)] (YAML [30.0], [6.0e+1]: the schema's
+    "integer" admits integral floats), [n < 10^16] so that [str()] is plain decimal *)
+Inductive val := VInt (n : N) | VStr (t : str) | VBool (b : bool) | VNone | VFloat (n : N).
 Definition dict := list (str * val).
 
 Definition truthy (v : val) : bool :=
@@ -124,6 +126,7 @@ Definition truthy (v : val) : bool :=
   | VStr t => match t with [] => false | _ => true end
   | VBool b => b
   | VNone => false
+  | VFloat n => negb (n =? 0)
   end.
 (** [str(v)] = ["{}".format(v)] *)
 Definition render (v : val) : str :=
@@ -133,6 +136,7 @@ Definition render (v : val) : str :=
   | VBool true => s "True"
   | VBool false => s "False"
   | VNone => s "None"
+  | VFloat n => N_dec n ++ s ".0"
   end.
 (** [int(v)] *)
 Definition int_of (v : val) : res Z :=
@@ -141,6 +145,7 @@ Definition int_of (v : val) : res Z :=
   | VStr t => match py_int t with Some z => Ok z | None => Err Diag end
   | VBool b => Ok (if b then 1%Z else 0%Z)
   | VNone => Err Internal
+  | VFloat n => Ok (Z.of_N n)
   end.
 
 Fixpoint lookup {A} (k : str) (d : list (str * A)) : option A :=
@@ -341,6 +346,7 @@ Definition flux_walltime (v : val) : res str :=
   match v with
   | VInt n => Ok (N_dec (n * 60))
   | VBool b => Ok (if b then s "60" else s "0")
+  | VFloat n => Ok (N_dec (n * 60))
   | VNone => Err Internal
   | VStr t =>
     if all_digits t then
